@@ -101,6 +101,7 @@ type mctx struct {
 	engine   string
 	engineAt int
 	note     string
+	both     bool // record the block with validate=1 and with validate=0
 }
 
 type mutator struct {
@@ -1291,6 +1292,7 @@ func init() {
 		root, _ := common.GetBlockRootAtSlot(m.c.Spec, m.p.A, m.p.Slot.Previous())
 		dom := common.ComputeDomain(common.DOMAIN_SYNC_COMMITTEE, m.stateVersion(), m.c.GVR)
 		sa.SyncCommitteeSignature = m.c.BLS.Sign(keys, common.ComputeSigningRoot(root, dom))
+		m.both = true
 		return true
 	})
 	// ---------- execution payload ----------
@@ -1731,6 +1733,25 @@ func (c *Chain) emitCorrupt(m *mctx, mu *mutator, hs HonestStep, pre common.Beac
 		c.Rec.Comment("error: " + firstLine(res.Err.Error()))
 	}
 	c.recordEngine(line, res.Engine)
+	if m.both && m.validate {
+		r0 := RunTransition(sp, pre, nil, dec, b.Fork, false, m.engine, m.engineAt, -1)
+		c.notePartial(&r0)
+		p0 := r0.Verdict()
+		if p0 == "OK" {
+			p0 = c.Rec.State(r0.Post)
+			c.noteState(r0.Post)
+		}
+		t0 := "kind=corrupt corrupt=" + mu.name + " rule=" + RuleClass(r0.Err)
+		if r0.Panicked {
+			c.problem("PANIC in zrnt on corrupted block %s (validate=0): %v", blkID, r0.PanicVal)
+		}
+		l0 := c.Rec.Line("trans %s %s 0 %s %s %s", hs.PreID, blkID, m.engine, p0, t0)
+		if r0.Err != nil {
+			c.Rec.Comment("error: " + firstLine(r0.Err.Error()))
+		}
+		c.recordEngine(l0, r0.Engine)
+		c.Stats.Inc("corrupt_blocks")
+	}
 	c.Stats.Inc("corrupt_blocks")
 	c.Stats.Inc("corrupt." + mu.name)
 	c.Stats.Inc("corrupt_rule." + rule)
